@@ -30,6 +30,9 @@ type Scenario struct {
 	Table [16]int   `json:"table"` // arbitrary binary function on residues mod 4 (From wrappers)
 	E     int       `json:"e"`     // monoid identity (arbitrary, not necessarily neutral: the statement is about constructors)
 	ES    string    `json:"es"`
+	// Share: the strings are views of ONE piece of memory (s, s[:k], s[i:]) instead of separate allocations; the values
+	// are unchanged, only where they live (an instance that compares data pointers would be fooled by s vs s[:k])
+	Share bool `json:"share,omitempty"`
 }
 
 var kinds = []string{"eqInt", "eqString", "ordInt", "ordString", "contraEq", "contraOrd", "contraEqStr", "contraOrdStr", "contraOrdRaw", "contraEqRaw", "fromEq", "fromOrd", "monoidOp", "monoidSg", "monoidStr", "monoidNested", "semigroup"}
@@ -62,7 +65,17 @@ func gen(t *rapid.T) Scenario {
 		sc.I[2], sc.S[2] = sc.I[1], sc.S[1]
 	case 2:
 		sc.S[1] = sc.S[0] + rapid.SampledFrom(pieces).Draw(t, "ext") // proper prefix
-		sc.I[1] = sc.I[0] + 1                                          // neighbour (wraps at MaxInt: fine)
+		sc.I[1] = sc.I[0] + 1                                        // neighbour (wraps at MaxInt: fine)
+	}
+	if rapid.IntRange(0, 4).Draw(t, "share") == 0 && len(sc.S[0]) > 0 {
+		// prefixes / suffixes of the first string, living in its memory
+		sc.Share = true
+		sc.S[1] = sc.S[0][:rapid.IntRange(0, len(sc.S[0])).Draw(t, "prefixLen")]
+		if rapid.Bool().Draw(t, "suffix") {
+			sc.S[2] = sc.S[0][rapid.IntRange(0, len(sc.S[0])).Draw(t, "suffixFrom"):]
+		} else {
+			sc.S[2] = sc.S[0][:rapid.IntRange(0, len(sc.S[0])).Draw(t, "prefixLen2")]
+		}
 	}
 	sc.Proj = rapid.IntRange(0, 4).Draw(t, "proj")
 	sc.P = rapid.IntRange(1, 9).Draw(t, "p")
@@ -135,6 +148,17 @@ type pairArgs struct{ a, b int }
 func Run(sc Scenario) string {
 	a, b, c := sc.I[0], sc.I[1], sc.I[2]
 	x, y, z := sc.S[0], sc.S[1], sc.S[2]
+	if sc.Share {
+		x = strings.Clone(x)
+		if strings.HasPrefix(x, y) {
+			y = x[:len(y)]
+		}
+		if strings.HasPrefix(x, z) {
+			z = x[:len(z)]
+		} else if strings.HasSuffix(x, z) {
+			z = x[len(x)-len(z):]
+		}
+	}
 	switch sc.Kind {
 	case "eqInt":
 		return eqLaws("eq.Int", eq.Int.Equal, a, b, c)
